@@ -787,7 +787,7 @@ Qed.
 
 Lemma tr_file m : m <= df -> trans (adm lf m) (adm lf m) (p_file lf df).
 Proof.
-  intros Hm. pose proof (tr_item m Hm). unfold p_file. apply trans_seq_same; [|intro; trg].
+  intros Hm. pose proof (tr_item m Hm). unfold p_file. stepS. apply trans_seq_same; [|intro; trg].
   apply trans_many_till; trg.
 Qed.
 End Braced.
